@@ -54,6 +54,7 @@ func goEnv() []string {
 			}
 		}
 	}
+	os.Setenv("PATH", path) // exec.LookPath("go") in go/packages consults this process's PATH
 	set := map[string]string{"PATH": path, "GOFLAGS": "-mod=mod", "GOPROXY": "off", "GOSUMDB": "off", "GOTOOLCHAIN": "local"}
 	var out []string
 	for _, e := range env {
